@@ -156,7 +156,7 @@ structure Entry13 where
   env : List (String × Bool)
   needsLabels : Bool      -- coherence is claimed only when the stored labels are fresh on entry
   relabels : Bool         -- outside a transaction the stored labels are fresh afterwards
-  deriving Repr, Inhabited
+  deriving DecidableEq, Repr, Inhabited
 
 /-- the self-mutating public entry points with the boolean keyword arguments the model passes -/
 def entryPoints : List Entry13 :=
@@ -197,21 +197,27 @@ def exitOK (T : Tables) : Bool :=
    | some A => cleanAbs A && A.bk == .none && A.chgSet
    | none => false)
 
-/-- the calls `substructure` makes on the object it creates, analysed from an empty cache -/
+/-- the two calls `substructure` makes on the object it creates, analysed from an empty cache -/
 def subRun (T : Tables) (recalc : Bool) : Option Abs :=
-  T.subCalls.foldl (fun acc f => acc.bind fun A =>
-    absRun T false false (expand T.fns expandFuel (subFq f) [("recalculate_hydrogens", recalc)]) A) (some newAbs)
+  (absRun T false false (expand T.fns expandFuel "MoleculeContainer.fix_structure" [("recalculate_hydrogens", recalc)]) newAbs).bind
+    fun A => absRun T false false (expand T.fns expandFuel "MoleculeStereo.fix_stereo" []) A
 
 def subOK (T : Tables) : Bool :=
+  (T.subCalls == ["fix_structure", "fix_stereo"]) &&
   [false, true].all fun recalc => match subRun T recalc with
     | some A => cleanAbs A && A.bk == .none && A.chgSet
     | none => false
+
+/-- a public memoised read never makes a ring / component value stale, and outside a transaction no value at all -/
+def readOK (T : Tables) : Bool :=
+  T.keys.all fun k => [false, true].all fun tx => endOK tx (absRead T (entryAbs tx false) k)
 
 def slotsOK (T : Tables) : Bool :=
   T.copySlots.contains "_changed" && T.copySlots.contains "_backup" && T.subSlots.contains "_changed" &&
   T.subSlots.contains "_backup" && T.copySlots.contains "_name" && T.copySlots.contains "_meta" &&
   T.copyAtomsDeep && T.copyBondsDeep && T.subAtomsDeep && T.subBondsDeep && !T.elementCopySharesXY
 
-def TablesOK (T : Tables) : Bool := keepOK T && mutatorsOK T && enterOK T && exitOK T && subOK T && slotsOK T
+def TablesOK (T : Tables) : Bool :=
+  keepOK T && mutatorsOK T && enterOK T && exitOK T && subOK T && readOK T && slotsOK T
 
 end ChythonModel.Model.C13
